@@ -327,7 +327,41 @@ func shapeZeroPadded(r *rng.R, plain bool) c10Shape {
 	return c10Shape{fmt.Sprintf("%d spellings of one number", len(pads)), "shape: names equal up to zero padding", files, []string{"root.thrift"}}
 }
 
-var c10ShapeGens = []func(*rng.R, bool) c10Shape{shapeConstChains, shapeServiceChain, shapeSameBaseName, shapeImportNames, shapeUmbrella, shapeLongNames, shapeTypedefLoop, shapeZeroPadded}
+// shapeMidLinkValues: values that are cast while the structs they belong to are being linked, in the
+// variants whose outcome does NOT depend on the order on the unchanged tree (base-typed defaults next
+// to an empty struct literal of a mutually recursive struct; a constant of a struct type that is used,
+// cast to another struct type, inside the cycle of its own type). The variants that do depend on the
+// order are the known findings D21 / D50 and are replayed from the corpus.
+func shapeMidLinkValues(r *rng.R, plain bool) c10Shape {
+	var lines []string
+	note := ""
+	if r.Bool() {
+		note = "base-typed defaults beside an empty literal of a mutually recursive struct"
+		// an integer literal at a double: the cast is visible in the generated code (float64(7))
+		defaults := append([]string{"optional double d = 7"}, shuffled(r, []string{"optional i32 n = 3", "optional string s = \"x\"", "optional bool b = true", "optional i64 big = 5", "optional double e = 2.5"})[:r.Intn(3)]...)
+		var fs []string
+		fs = append(fs, "  1: optional U u")
+		for i, d := range defaults {
+			fs = append(fs, fmt.Sprintf("  %d: %s", i+2, d))
+		}
+		lines = append(lines, "struct S {\n"+strings.Join(fs, "\n")+"\n}")
+		lines = append(lines, "struct U {\n  1: optional S s = {}\n  2: optional string label\n}")
+		if !plain {
+			lines = append(lines, "struct V {\n  1: optional U u = {}\n  2: optional S s = {}\n}")
+		}
+	} else {
+		note = "a constant used, cast to another struct type, inside the cycle of its own type"
+		lines = append(lines, "struct S2 {}", "struct T {\n  1: optional S2 x = C\n}", "const S C = {}",
+			"struct S {\n  1: optional U u\n}", "struct U {\n  1: optional S s = C\n}")
+		if !plain {
+			lines = append(lines, "struct W {\n  1: optional S s = C\n  2: optional S2 y = C\n}")
+		}
+	}
+	files := map[string]string{"root.thrift": strings.Join(shuffled(r, lines), "\n\n") + "\n"}
+	return c10Shape{note, "shape: values cast while their structs are being linked (order-independent variants)", files, []string{"root.thrift"}}
+}
+
+var c10ShapeGens = []func(*rng.R, bool) c10Shape{shapeConstChains, shapeServiceChain, shapeSameBaseName, shapeImportNames, shapeUmbrella, shapeLongNames, shapeTypedefLoop, shapeZeroPadded, shapeMidLinkValues}
 
 // c10ShapeSizes: order dependences of the generator act on Go's natural map
 // order only (the link-order hook steers the compiler, not the generator), and
